@@ -124,7 +124,7 @@ package memfs
 //@   field nodes guarded_by mu
 //@   field index guarded_by mu
 //@   field time guarded_by mu
-//@ define isNode(x iface) bool = (typeis(x, "*memfs.Dir") || typeis(x, "*memfs.File")) && payload(x) != 0
+//@ define isNode(x iface) bool = (typeis(x, "*memfs.Dir") || typeis(x, "*memfs.File")) && payload(x) != 0 && allocated(payload(x))
 //@ define nodeName(x iface) string = ite(typeis(x, "*memfs.Dir"), as(x, "*memfs.Dir").name, as(x, "*memfs.File").name)
 // representation invariant: list and index describe the same set of normally named nodes
 //@ define DirInv(d ref) bool = d.index != nil && len(d.index) == len(d.nodes)
@@ -175,3 +175,47 @@ package memfs
 //@   ensures result == nil ==> forall(k, 0 <= k && k < old(len(d.nodes)) ==> d.nodes[k] == old(d.nodes[k]))
 //@   ensures result == nil ==> foralls(s, s != nodeName(newNode) ==> has(d.index, s) == old(has(d.index, s)) && d.index[s] == old(d.index[s]))
 //@   ensures result != nil ==> len(d.nodes) == old(len(d.nodes)) && foralls(s, has(d.index, s) == old(has(d.index, s)) && d.index[s] == old(d.index[s]))
+
+// mkdir is idempotent: an existing directory is returned unchanged, a file of that name is an
+// error, otherwise a new empty directory is added; the name must be a normal name (never
+// empty, dot or dot-dot): this is what keeps phantom nodes out of the tree
+//@ func (*Dir).mkdir [C01 C09]
+//@   requires DirInv(d) && Normal(name)
+//@   modifies memfs.Dir.nodes, M:string:fs.FileInfo, E:fs.FileInfo, $maplen
+//@   ensures DirInv(d)
+//@   ensures old(has(d.index, name)) && typeis(old(d.index[name]), "*memfs.Dir") ==> err == nil && ref(dir) == payload(old(d.index[name])) && len(d.nodes) == old(len(d.nodes))
+//@   ensures old(has(d.index, name)) && !typeis(old(d.index[name]), "*memfs.Dir") ==> err != nil && len(d.nodes) == old(len(d.nodes))
+//@   ensures !old(has(d.index, name)) ==> err == nil && fresh(dir) && DirInv(dir) && len(dir.nodes) == 0 && dir.name == name && len(d.nodes) == old(len(d.nodes)) + 1 && has(d.index, name) && payload(d.index[name]) == ref(dir) && typeis(d.index[name], "*memfs.Dir")
+//@   ensures foralls(s, s != name ==> has(d.index, s) == old(has(d.index, s)) && d.index[s] == old(d.index[s]))
+//@   ensures forall(k, 0 <= k && k < old(len(d.nodes)) ==> d.nodes[k] == old(d.nodes[k]))
+//@   ensures err != nil ==> dir == nil
+
+// removeNodeByName: succeeds exactly when the name is present; the other nodes keep their order
+//@ func (*Dir).removeNodeByName [C01 C09]
+//@   requires DirInv(d)
+//@   modifies memfs.Dir.nodes, M:string:fs.FileInfo, E:fs.FileInfo, $maplen
+//@   ensures DirInv(d)
+//@   ensures result == nil ==> old(has(d.index, name)) && !has(d.index, name) && len(d.nodes) == old(len(d.nodes)) - 1
+//@   ensures result != nil ==> forall(k, 0 <= k && k < len(d.nodes) ==> nodeName(d.nodes[k]) != name)
+//@   ensures foralls(s, s != name ==> has(d.index, s) == old(has(d.index, s)) && d.index[s] == old(d.index[s]))
+//@   ensures result != nil ==> len(d.nodes) == old(len(d.nodes)) && forall(k, 0 <= k && k < len(d.nodes) ==> d.nodes[k] == old(d.nodes[k]))
+//@   loop 1 invariant 0 <= i && i <= len(d.nodes) && DirInv(d) && held(d.mu)
+//@   loop 1 invariant forall(k, 0 <= k && k < i ==> nodeName(d.nodes[k]) != name)
+//@   loop 1 invariant ref(d.index) == old(ref(d.index)) && len(d.nodes) == old(len(d.nodes)) && foralls(s, has(d.index, s) == old(has(d.index, s)) && d.index[s] == old(d.index[s])) && forall(k, 0 <= k && k < len(d.nodes) ==> d.nodes[k] == old(d.nodes[k]))
+//@   loop 1 decreases len(d.nodes) - i
+
+// a new directory over the given nodes (distinct normal names); the listing slice is adopted
+//@ func NewDir [C01]
+//@   modifies $none
+//@   requires forall(k, 0 <= k && k < len(nodes) ==> isNode(nodes[k]) && Normal(nodeName(nodes[k])))
+//@   requires forall(a, forall(b, 0 <= a && a < b && b < len(nodes) ==> nodeName(nodes[a]) != nodeName(nodes[b])))
+//@   ensures result != nil && fresh(result) && fresh(ref(result.index)) && result.name == name && DirInv(result) && len(result.nodes) == len(nodes)
+//@   loop 1 invariant -1 <= $i && $i < len(dir.nodes) && dir.index != nil && fresh(ref(dir.index)) && fresh(dir) && dir.name == name && len(dir.nodes) == len(nodes) && len(dir.index) == $i + 1
+//@   loop 1 invariant forall(k, 0 <= k && k < len(nodes) ==> dir.nodes[k] == nodes[k] && isNode(nodes[k]) && old(allocated(payload(nodes[k]))) && Normal(nodeName(nodes[k])))
+//@   loop 1 invariant forall(a, forall(b, 0 <= a && a < b && b < len(nodes) ==> nodeName(nodes[a]) != nodeName(nodes[b])))
+//@   loop 1 invariant forall(k, 0 <= k && k <= $i ==> has(dir.index, nodeName(nodes[k])) && dir.index[nodeName(nodes[k])] == nodes[k])
+//@   loop 1 invariant foralls(s, has(dir.index, s) ==> isNode(dir.index[s]) && nodeName(dir.index[s]) == s)
+//@   loop 1 invariant forall(k, $i < k && k < len(nodes) ==> !has(dir.index, nodeName(nodes[k])))
+//@ func NewFile [C01 C04]
+//@   modifies $none
+//@   ensures result != nil && fresh(result) && result.name == name && result.data == data
